@@ -338,6 +338,8 @@ def correspond_cache(res, drv, case):
     msol = parts[-1].split()
     isol = None if o.feasible_solution is None else [F(v) for v in np.asarray(o.feasible_solution).ravel()]
     msolv = None if msol == ["none"] else [Fraction(t) for t in msol[1:]]
+    if msolv is not None:
+        msolv = FU.vec_to_impl(FU.var_order(drv, o, form), msolv)      # (in the implementation's variable numbering)
     if isol != msolv:
         res.disagree(f"{form} stored solution after the history", isol, msolv)
 
@@ -404,7 +406,7 @@ def correspond_path_flags(res, drv, case):
             elif kind == "chk":
                 ops.append("chk " + route_tok(op[1]))
                 f_, c_, _v = o.check_route(list(op[1]))
-                out = ("chk", bool(f_), F(c_))
+                out = ("chk", bool(f_), F(c_) if f_ else None)      # (the number reported with a rejection is not part of the property)
             elif kind == "route":
                 ops.append("route " + route_tok(op[1]))
                 f_, a_ = o.add_route(list(op[1]))
@@ -536,6 +538,7 @@ def correspond_flags(res, drv, case):
     o, _ = FU.build_form(case, with_heur=False)
     inst = FU.inst_tokens(o, form)
     ops, impl = [], []
+    relabelled = False
 
     def flags():
         if form == "arc":
@@ -635,6 +638,11 @@ def correspond_flags(res, drv, case):
             if kind in MUTATORS:
                 out = ("mutraise", "raised", core.err_kind(e))
         impl.append((out, [int(bool(x)) for x in flags()]))
+        if not relabelled and FU.enumerated(o) and FU.var_order(drv, o, form) is not None:
+            # the implementation numbers its variables in another order than the model (no property fixes the order): replies that
+            # are indexed by variable number are then not compared call by call (flags, raise / return, sizes, QUBO digests, mutator
+            # replies, final graph / vehicles / stored solution still are)
+            relabelled = True
     if not ops:
         return
     rep = drv.ask(f"flags.{form} {inst} {len(ops)} {' '.join(ops)}")
@@ -663,6 +671,8 @@ def correspond_flags(res, drv, case):
         if "raised" in tk[:2] or (len(tk) > 1 and tk[1].startswith("err:")):
             res.disagree(what + ": status", "normal return", dig[:80])
             return
+        if relabelled and out[0] in ("idx", "tup", "obj", "con", "routes"):
+            continue
         if out[0] == "mut":
             if " ".join(tk) != out[1]:
                 res.disagree(what, out[1], " ".join(tk))
@@ -730,9 +740,12 @@ def correspond_flags(res, drv, case):
     msol = parts[-1].split()
     isol = None if o.feasible_solution is None else [F(v) for v in np.asarray(o.feasible_solution).ravel()]
     msolv = None if msol == ["none"] else [Fraction(t) for t in msol[1:]]
+    if relabelled and msolv is not None:
+        msolv = FU.vec_to_impl(FU.var_order(drv, o, form), msolv) if FU.enumerated(o) else None
+        isol = isol if msolv is not None else None      # (a stale solution of an object that is not enumerated cannot be relabelled)
     if isol != msolv:
         res.disagree(f"{form} flag machine: stored solution after the history", isol, msolv)
-    res.features.append("flag-machine:compared")
+    res.features.append("flag-machine:compared" + ("(modulo variable numbering)" if relabelled else ""))
     for x in impl:
         if x[0][0] == "routes":
             res.features.append("flag-machine:decode-" + ("raised" if x[0][1:2] == ("raised",) else "returned"))
